@@ -13,7 +13,7 @@ RULE = ("(a) set/get/list histories of C11 incl. refused calls, growth, merges, 
 EXTRA_FLAVOURS = ["msan"]     # clang MemorySanitizer build of the same driver: reads of uninitialised memory
 
 def gen(rng, tier):
-    n = 900 if tier == "quick" else 15000
+    n = 900 if tier == "quick" else 40000
     out = []
     for _ in range(n):
         cmds = [gens.start_cmd(rng, 0)]
